@@ -460,7 +460,7 @@ pub fn generate_call_race(run_seed: u64) -> ConcDesc {
     // functions that return through an out-pointer (String, Option, Verdict) or take large values
     // ... and, since round 11, the rest of the corpus as well (local lists, enums, constants,
     // arithmetic): anything a code generator or a built-in might keep outside the caller's frame
-    let f = *r.pick(&[1usize, 2, 10, 16, 13, 14, 11, 15, 3, 1, 2, 11, 15, 4, 5, 6, 7, 0, 12]);
+    let f = *r.pick(&[1usize, 2, 10, 16, 13, 14, 11, 15, 3, 1, 2, 10, 16, 13, 14, 11, 15, 3, 4, 5, 6, 7, 0, 12]);
     let callers = vec![
         vec![ConcOp::Call { f, x: r.below(60) }, ConcOp::Call { f, x: r.below(60) }],
         vec![ConcOp::Call { f, x: r.below(60) }, ConcOp::Call { f, x: r.below(60) }],
